@@ -247,6 +247,40 @@ func buildFswScenario(r *Rng, root string, idx int) *fswScenario {
 			expect[hx(a.addr[:])] = "reject"
 		}
 	}
+	// a second file name that spells the same address differently (0x prefix toggled, upper-case hex, UTC-- prefix):
+	// same content as the first, present from the start or appearing before the second refresh. The address must
+	// be listed once.
+	if n > 0 && r.Intn(3) == 0 {
+		a := accts[r.Intn(n)]
+		first := ""
+		for p := range files {
+			if strings.HasPrefix(p, dir+"/") && strings.Contains(strings.ToLower(p), hx(a.addr[:])) {
+				first = p
+			}
+		}
+		if first != "" {
+			h := hx(a.addr[:])
+			base := strings.TrimPrefix(first, dir+"/")
+			var alias string
+			switch {
+			case mode == "regex" && !strings.HasPrefix(base, "UTC--") && r.Bool():
+				alias = "UTC--2025-02-02T00-00-00Z--" + base
+			case strings.Contains(base, "0x"+h):
+				alias = strings.Replace(base, "0x"+h, h, 1)
+			case r.Bool():
+				alias = strings.Replace(base, h, "0x"+h, 1)
+			default:
+				alias = strings.Replace(base, h, strings.ToUpper(h), 1)
+			}
+			if alias != base && alias != "" {
+				if r.Bool() {
+					files[path.Join(dir, alias)] = files[first]
+				} else {
+					later[path.Join(dir, alias)] = files[first]
+				}
+			}
+		}
+	}
 	// near-miss and unrelated names, a sub-directory with a key-like name
 	h40 := hx(r.Bytes(20))
 	for _, nm := range []string{h40, h40 + ".txt", hx(r.Bytes(19)) + conf.Filenames.PrimaryExt, hx(r.Bytes(21)) + conf.Filenames.PrimaryExt, "0x0x" + h40 + conf.Filenames.PrimaryExt,
